@@ -526,8 +526,9 @@ func redactPipelineStage(stage interface{}, redactFieldNames bool, keyPath []str
 				}
 				if !inSearchStage {
 					// field-name redaction: a '$field' reference gets the field's pseudonym (as it does
-					// inside expression arrays), operators and '$$' system variables are kept
-					if _, isOp := getOp([]string{str}, inSearchStage); isOp || strings.HasPrefix(str, "$$") {
+					// inside expression arrays), operators and bare '$$' system variables are kept; a
+					// variable followed by a field path ("$$ROOT.name", "$$this.price") names fields too
+					if _, isOp := getOp([]string{str}, inSearchStage); isOp || (strings.HasPrefix(str, "$$") && !strings.Contains(str, ".")) {
 						newMap.Set(redactedKey, v)
 					} else {
 						newMap.Set(redactedKey, HashName(str))
